@@ -39,18 +39,18 @@ type blk struct {
 	PreHash    []byte
 }
 
-func (b *blk) GetProposer() []byte                    { return []byte(b.Proposer) }
-func (b *blk) GetHeight() int64                       { return b.Height }
-func (b *blk) GetBlockid() []byte                     { return b.Blockid }
-func (b *blk) GetConsensusStorage() ([]byte, error)   { return b.Storage, b.StorageErr }
-func (b *blk) GetTimestamp() int64                    { return b.Timestamp }
-func (b *blk) SetItem(string, interface{}) error      { return errors.New("not supported") }
-func (b *blk) GetPreHash() []byte                     { return b.PreHash }
-func (b *blk) GetNextHash() []byte                    { return nil }
-func (b *blk) GetPublicKey() string                   { return b.PublicKey }
-func (b *blk) GetSign() []byte                        { return b.Sign }
-func (b *blk) GetTxIDs() []string                     { return nil }
-func (b *blk) GetInTrunk() bool                       { return true }
+func (b *blk) GetProposer() []byte                  { return []byte(b.Proposer) }
+func (b *blk) GetHeight() int64                     { return b.Height }
+func (b *blk) GetBlockid() []byte                   { return b.Blockid }
+func (b *blk) GetConsensusStorage() ([]byte, error) { return b.Storage, b.StorageErr }
+func (b *blk) GetTimestamp() int64                  { return b.Timestamp }
+func (b *blk) SetItem(string, interface{}) error    { return errors.New("not supported") }
+func (b *blk) GetPreHash() []byte                   { return b.PreHash }
+func (b *blk) GetNextHash() []byte                  { return nil }
+func (b *blk) GetPublicKey() string                 { return b.PublicKey }
+func (b *blk) GetSign() []byte                      { return b.Sign }
+func (b *blk) GetTxIDs() []string                   { return nil }
+func (b *blk) GetInTrunk() bool                     { return true }
 func (b *blk) MakeBlockId() ([]byte, error) {
 	if b.ComputedID != nil {
 		return b.ComputedID, nil
@@ -74,9 +74,9 @@ func (l *stubLedger) put(b *blk) {
 	l.chain = append(l.chain, b)
 	l.byID[string(b.Blockid)] = b
 }
-func (l *stubLedger) tip() *blk                              { return l.chain[len(l.chain)-1] }
-func (l *stubLedger) GetConsensusConf() ([]byte, error)      { return l.conf, nil }
-func (l *stubLedger) GetTipBlock() ledger.BlockHandle        { return l.tip() }
+func (l *stubLedger) tip() *blk                         { return l.chain[len(l.chain)-1] }
+func (l *stubLedger) GetConsensusConf() ([]byte, error) { return l.conf, nil }
+func (l *stubLedger) GetTipBlock() ledger.BlockHandle   { return l.tip() }
 func (l *stubLedger) QueryBlock(id []byte) (ledger.BlockHandle, error) {
 	if b, ok := l.byID[string(id)]; ok {
 		return b, nil
@@ -101,9 +101,11 @@ func (emptyReader) Select(string, []byte, []byte) (ledger.XMIterator, error) {
 	return nil, errors.New("not supported")
 }
 
-func (l *stubLedger) GetTipXMSnapshotReader() (ledger.XMSnapshotReader, error) { return emptySnapshot{}, nil }
-func (l *stubLedger) CreateSnapshot([]byte) (ledger.XMReader, error)          { return emptyReader{}, nil }
-func (l *stubLedger) GetTipSnapshot() (ledger.XMReader, error)                { return emptyReader{}, nil }
+func (l *stubLedger) GetTipXMSnapshotReader() (ledger.XMSnapshotReader, error) {
+	return emptySnapshot{}, nil
+}
+func (l *stubLedger) CreateSnapshot([]byte) (ledger.XMReader, error) { return emptyReader{}, nil }
+func (l *stubLedger) GetTipSnapshot() (ledger.XMReader, error)       { return emptyReader{}, nil }
 
 // stubNet answers PeerInfo only (the plugins without chained-bft use nothing else).
 type stubNet struct {
